@@ -591,6 +591,8 @@ def index_lookup(data, items):
 
     # np.searchsorted doesn't work on mixed types in Python3
 
+    shape = np.shape(data)
+    data = np.asarray(data).ravel()
     ndata, ncat = len(data), len(items)
     data = pd.DataFrame({'data': data, 'row': np.arange(ndata)})
     cats = pd.DataFrame({'items': items,
@@ -599,7 +601,7 @@ def index_lookup(data, items):
     m = pd.merge(data, cats, left_on='data', right_on='items')
     result = np.zeros(ndata, dtype=float) * np.nan
     result[np.array(m.row)] = m.cat_row
-    return result
+    return result.reshape(shape)
 
 
 def random_views_for_dask_array(array, n_random_samples, n_chunks):
